@@ -820,9 +820,13 @@ pub fn run(args: Args) {
                 .collect()
         } else {
             sampled.push(format!("{}:{} {} of {}", SHAPES[p.shape].name, p.txn.name(), cap, p.n));
-            let mut v: std::collections::BTreeSet<u64> = (1..=(p.n_ops + 6).min(p.n)).collect();
+            let step = tier.pick(8u64, 2u64);
+            let mut v: std::collections::BTreeSet<u64> = (1..=p.n_ops.min(p.n))
+                .filter(|k| *k % step == 0 || *k <= 4)
+                .collect();
+            v.extend((p.n_ops + 1)..=(p.n_ops + 6).min(p.n));
             v.extend((p.n - 14)..=p.n);
-            let rest = cap.saturating_sub(v.len() as u64).max(8);
+            let rest = cap.saturating_sub(20).max(8);
             for i in 0..rest {
                 v.insert(p.n_ops + 6 + (i * (p.n - 20 - p.n_ops)) / rest);
             }
